@@ -191,7 +191,10 @@ namespace foonathan
                             count * node_size,
                             [&] { return next_capacity() - pool.alignment() + 1; }, info());
 
-                        block = reserve_memory(pool, count * node_size);
+                        // the array occupies whole nodes of the pool, which can be bigger than node_size
+                        auto no_nodes = count * node_size / pool.node_size()
+                                        + (count * node_size % pool.node_size() != 0u ? 1u : 0u);
+                        block = reserve_memory(pool, no_nodes * pool.node_size());
                         pool.insert(block.memory, block.size);
 
                         mem = pool.allocate(count * node_size);
